@@ -1,17 +1,18 @@
-"""Reproduction of the stage-2 guard failure of `soil_evaporation` through the public API
-(negative actual soil evaporation; water is *added* to the compartment below the evaporation layer).
+"""Regression test for the (fixed) stage-2 defect of `soil_evaporation`: negative actual soil
+evaporation with water *added* to the compartment below the evaporation layer.
 
-The stage-2 extraction loop `while (ToExtractStg2 > 0) and (comp < comp_sto): comp = comp + 1 …`
-visits index `comp_sto`, one compartment beyond those counted in the evaporation layer, where
-`factor < 0`; stage 2 (unlike stage 1) does not clamp `AvW` at 0, so `AvW = (W - Wdry)*factor < 0`
-is "extracted": `EsAct += AvW` (decreases), `W -= AvW` (increases).  It happens when the demand of a
-sub-step exceeds the water above air-dryness in the layer — e.g. a coarse sand with the default
-`rew = 9` mm, for which `Wupper - Wlower = Wevap_Fc - REW - Wevap_Dry` is negative/tiny and `Kr`
-jumps to 1 while the layer is almost air dry.
+Before repo fix 9c2fed8 the stage-2 extraction loop
+`while (ToExtractStg2 > 0) and (comp < comp_sto): comp = comp + 1 …` visited index `comp_sto`, one
+compartment beyond those counted in the evaporation layer, where `factor < 0`, and — unlike stage 1 —
+did not clamp `AvW = (W - Wdry)*factor` at 0: `EsAct += AvW` decreased, `W -= AvW` increased.  With a
+coarse sand (texture 92 % sand, 3 % clay; all evaporation parameters at their defaults, `rew = 9`)
+the public API produced `Es = -1.598 mm` on day 47 of this run.  The fix adds `if AvW < 0: AvW = 0`.
 
-Run: /venv/bin/python -W ignore repro_soil_evaporation_negative_es.py
-Lean counterpart: ghost output `negTake` of `Aqua.soilEvaporation`; lemmas `soilEvap_inv_of_guard`,
-`soilEvap_esAct_nonneg_of_guard` need `negTake = false`."""
+This script exits 0 iff the defect is gone: `Es >= 0` on every day, no `soil_evaporation` call
+returns `EsAct < 0` or raises a water content, the Lean model agrees with every call and never
+reports its ghost `negTake` (Lean: `soilEvap_negTake_false`, `soilEvap_esAct_nonneg`, `soilEvap_inv`).
+
+Run: /venv/bin/python -W ignore repro_soil_evaporation_negative_es.py"""
 import os, sys, warnings
 warnings.filterwarnings("ignore")
 sys.path.insert(0, os.path.join(os.path.dirname(os.path.abspath(__file__)), ".."))
@@ -22,34 +23,45 @@ from aqv import rec, proto, fuzzlib
 from aqv.lines import soil_evaporation as SE
 
 
+def soils():
+    s1 = Soil("custom")                       # all evaporation parameters at their defaults
+    s1.add_layer_from_texture(2.0, 92, 3, 0.5, 100)   # sand 92 %, clay 3 %, OM 0.5 %
+    s2 = Soil("custom")
+    s2.add_layer(2.0, 0.03, 0.07, 0.36, 3000, 100)
+    return [("texture sand=92 clay=3", s1, "FC"), ("layer wp=.03 fc=.07", s2, "WP")]
+
+
 def main():
     w = prepare_weather(get_filepath("tunis_climate.txt"))
-    soil = Soil("custom")                       # all evaporation parameters at their defaults
-    soil.add_layer_from_texture(2.0, 92, 3, 0.5, 100)   # sand 92 %, clay 3 %, OM 0.5 %
-    reg = proto.ProfRegistry()
-    pairs, raw = [], []
+    ok = True
+    for label, soil, iwc in soils():
+        reg = proto.ProfRegistry()
+        pairs, raw = [], []
 
-    def obs(name, before, res, after):
-        pairs.append(SE.encode(reg, before, res, after))
-        raw.append((before, res))
-    with rec.Recorder(obs, names=[SE.NAME]):
-        m = AquaCropModel("1988/05/01", "1989/09/30", w, soil, Crop("Wheat", planting_date="11/15"),
-                          InitialWaterContent(value=["FC"]), off_season=True)
-        m.run_model(till_termination=True)
-    es = m._outputs.water_flux["Es"].values
-    print("min Es in the output table:", es.min(), " days with Es < 0:", int((es < 0).sum()))
-    st = fuzzlib.compare_batch(SE, reg, pairs)
-    print(st.as_dict())
-    out = proto.run_driver(reg.lines + [l for l, _ in pairs])[len(reg.lines):]
-    neg = [i for i, o in enumerate(out) if (SE.ghosts(o) or (False, 0))[0]]
-    print("calls where the model reports negTake:", neg)
-    for i in neg[:1]:
-        b, r = raw[i]
-        print("  th before:", np.round(b[22][:4], 5), " th after:", np.round(r[1][:4], 5),
-              " th_dry/th_s:", b[3].th_dry[0], b[3].th_s[0])
-        print("  EsAct:", r[7], " EsPot:", r[8], " EvapZ:", b[20], "->", r[6])
-    ok = (es < 0).any() and len(neg) > 0 and st.bad == 0
-    print("REPRODUCED" if ok else "NOT REPRODUCED")
+        def obs(name, before, res, after):
+            pairs.append(SE.encode(reg, before, res, after))
+            raw.append((before, res))
+        with rec.Recorder(obs, names=[SE.NAME]):
+            m = AquaCropModel("1988/05/01", "1989/09/30", w, soil, Crop("Wheat", planting_date="11/15"),
+                              InitialWaterContent(value=[iwc]), off_season=True)
+            m.run_model(till_termination=True)
+        es = m._outputs.water_flux["Es"].values
+        st = fuzzlib.compare_batch(SE, reg, pairs)
+        out = proto.run_driver(reg.lines + [l for l, _ in pairs])[len(reg.lines):]
+        neg = [i for i, o in enumerate(out) if (SE.ghosts(o) or (False, 0))[0]]
+        bad_calls = []
+        for i, (b, r) in enumerate(raw):
+            if isinstance(r, Exception):
+                bad_calls.append(i)
+                continue
+            th0, th1 = np.array(b[22]), np.array(r[1])
+            if r[7] < 0 or np.any(th1 > th0 + 1e-12) or np.any(th1 < b[3].th_dry - 1e-12):
+                bad_calls.append(i)
+        print(f"{label}: min Es = {es.min()}, days with Es < 0: {int((es < 0).sum())}, "
+              f"calls {st.calls}, model disagreements {st.bad}, negTake calls {neg}, "
+              f"calls with EsAct<0 / th raised / th<th_dry / exception: {bad_calls}")
+        ok = ok and not (es < 0).any() and not neg and not bad_calls and st.bad == 0
+    print("DEFECT GONE" if ok else "DEFECT STILL PRESENT")
     return 0 if ok else 1
 
 
